@@ -29,6 +29,7 @@ type PType struct {
 	FD      int      `json:"fd"`
 	Union   []PType  `json:"union"`
 	LeafRef string   `json:"leafref"` // format of the leafref target
+	Target  string   `json:"target"`  // leafref: the type of the leaf pointed at (through further leafrefs), as typeSig
 }
 
 // PNode is one node of the compiled schema as seen through the public accessors.
@@ -102,10 +103,22 @@ func pType(t *meta.Type) *PType {
 		defer func() { recover() }()
 		if strings.HasPrefix(p.Format, "leafref") {
 			p.LeafRef = t.Resolve().Format().String()
+			p.Target = "?"
+			r := t.Resolve()
+			for fuel := 0; fuel < 5 && r != nil; fuel++ {
+				if !strings.HasPrefix(r.Format().String(), "leafref") {
+					p.Target = typeSig(pTypeNoRef(r))
+					break
+				}
+				r = r.Resolve()
+			}
 		}
 	}()
 	return p
 }
+
+// pTypeNoRef: pType of a type that is not a leafref (no target to follow)
+func pTypeNoRef(t *meta.Type) *PType { return pType(t) }
 
 func (pj *projector) node(d meta.Definition, parent meta.Meta) PNode {
 	n := PNode{N: d.Ident(), Dflt: []string{}, Musts: []string{}, Keys: []string{}, Kids: []PNode{}}
